@@ -72,7 +72,7 @@ class C08(scen.WorldProp):
                         pool = [{"id": 11, "name": "Alice"}, {"id": 12, "name": "Bob"}, {"id": 13, "name": "Cara"}]
                         events.append([t, "msg", {"m": "user_list", "users": rng.sample(pool, rng.randint(0, 2))}])
                     else:
-                        events.append([t, "msg", {"m": "user_entered", "id": 12, "name": rng.choice(["Bob", "Wheatley", "wheatley", "Wheatley "])}])
+                        events.append([t, "msg", {"m": "user_entered", "id": 12, "name": rng.choice(["Bob", "Wheatley", "wheatley", "Wheatley ", "Wheat", "W", "heat", "ley"])}])
                     ch += 1
             on_join = scen.humans_on_join(humans, name, wbells)
             on_join[0]["users"].append({"id": 12, "name": "Bob"})
